@@ -129,6 +129,7 @@ def parseReps (t : String) : Option (List Rep) :=
   if t = "-" then some [] else (t.splitOn ",").mapM parseRep
 
 def parseFrame : List String → Option (Dir × Frame)
+  | ["hbc", e, sid, es, prio, reps]   -- the same block sent as HEADERS + an empty CONTINUATION
   | ["hb", e, sid, es, prio, reps] => do
     let d ← parseDir e; let s ← sid.toNat?; let b ← parseBool es
     let p ← parsePrio prio; let r ← parseReps reps
@@ -294,7 +295,7 @@ def step (st : St) (toks : List String) : St × String :=
         -- size update (the encoder had one pending) and stays queued itself
         let hz := match blockEnd f with
           | some sid => hazard (s'.relay d) sid ||
-              ((s.hp d).enc.pending &&
+              (((s'.flushLog d)[(s.relay d).nextStamp]?.getD []) != [] &&
                ((s'.relay d).ob sid).q.any fun q => q.stamp? == some (s.relay d).nextStamp)
           | none => false
         let pend' := blockOpen f
